@@ -133,7 +133,8 @@ def align(text, tokens, bad_positions, count_mode=False, want=None):
             choice = None
             if count_mode and first and cur.i < n and len(bad_used) < nbad and not sl:
                 save("bad")
-            if (not count_mode) and first and cur.i < n and pos in bad_positions and pos not in bad_used:
+            # a backslash-newline between tokens is a splice, never an unmatched character
+            if (not count_mode) and first and cur.i < n and pos in bad_positions and pos not in bad_used and not sl:
                 choice = "bad"
             elif sl and m:
                 save("literal")
